@@ -120,6 +120,7 @@ class C06(Check):
             "same type names (nothing may be remembered between calls). Three parties: writer = pydsdl.serialize, reader = pydsdl.deserialize, reference peer = "
             "independent Specification codec. distinct = hash of (type-shape signature: kinds of fields incl. nesting, union, "
             "delimited; value features); non-trivial = the type has a sub-byte field or a nested composite or a variable array")
+    RULE = RULE + "; " + 'rounds 7-8: values also (de)serialized with the type rebuilt through the constructors with constants between the fields; serialize / deserialize run under the host configuration seam (DEBUG logging, warnings as errors)'
     TIERS = {"quick": {"runs": 480, "budget_s": 50}, "thorough": {"runs": 40000, "budget_s": 900}}
     ASSUMPTIONS = ["struct (IEEE-754 rounding of finite floats) is trusted on both sides", "an infinite input for a *saturated* float field is not generated (left open by the property text)",
                    "float inputs for integer fields are generated with integral values only (a non-integral float would need a rounding rule the property does not state); ambiguous bare-dict relaxed forms are not generated"]
